@@ -554,7 +554,7 @@ def verify_function(repo, con, schema, lib, registry=None, engine_cls=VEngine, n
         if p not in params:
             res.problems.append({'kind': 'anchor-lost', 'msg': 'contract of %s declares unknown parameter %r' % (con.qualname, p)})
             return res, eng
-    is_gen = any(isinstance(n, (ast.Yield, ast.YieldFrom)) for n in ast.walk(node))
+    is_gen = any(isinstance(n, (ast.Yield, ast.YieldFrom)) for n in repo.own_nodes(node))
     fobj = VUserFunc(node, module, cls, qualname=con.qualname)
 
     def run_path(ctx):
